@@ -180,6 +180,10 @@ func (s *State) Iterate(fn func(key []byte, value []byte) bool) (stopped bool) {
 		if err != nil {
 			continue
 		}
+		if value == nil {
+			// still in the committed tree but deleted earlier in this block or session
+			continue
+		}
 		stop := fn(key, value)
 		if stop {
 			return true
@@ -198,6 +202,10 @@ func (s *State) IterateRange(start, end []byte, ascending bool, fn func(key, val
 	for _, key := range keys {
 		value, err := s.Get(key)
 		if err != nil {
+			continue
+		}
+		if value == nil {
+			// still in the committed tree but deleted earlier in this block or session
 			continue
 		}
 		stop := fn(key, value)
